@@ -11,6 +11,6 @@ rmdir "$W"; git -C /repo worktree add -q "$W" HEAD || exit 2
 git -C "$W" apply "$PATCH" || { echo "PATCH DOES NOT APPLY"; exit 2; }
 for P in "$@"; do
   echo "=== $P on mutant $(basename $(dirname $PATCH))"
-  VERIF_REPO=$W VERIF_BUILD=$B python3 "$HERE/check.py" "$P" --tier "${TIER:-quick}" --no-evidence 2>&1 | grep -E "^(VIOLATION|KNOWN|INCONCLUSIVE|property=|  signature)" | cut -c1-300 | head -${LINES_MAX:-14}
+  VERIF_REPO=$W VERIF_BUILD=$B python3 "$HERE/check.py" "$P" --tier "${TIER:-quick}" --no-evidence 2>&1 | grep -a -E "^(VIOLATION|KNOWN|INCONCLUSIVE|property=|  signature)" | cut -c1-300 | head -${LINES_MAX:-14}
   echo "exit=${PIPESTATUS[0]}"
 done
